@@ -149,7 +149,9 @@ def substep_chain(case, substep, prob, steps):
                     want += dti * rh * a / k / prob.dr * float(np.sum(qi))
                     mag += dti * abs(rh) * a / k / prob.dr * float(np.sum(np.abs(qi)))
             # solver tolerance on the temperatures (auto_atol) and rounding of the sums
-            tol = 1e-6 * (mag + 1e-3 * scale * float(np.sum(np.abs(rr[I]))))
+            # round-off of the stored-heat sums themselves: 1e-11 of sum r|T| over all real nodes
+            heat_scale = float(np.sum(np.abs(rr[I, None, None] * Treal.reshape(prob.fdim)[I, J, Kk])))
+            tol = 1e-6 * (mag + 1e-3 * scale * float(np.sum(np.abs(rr[I])))) + 1e-11 * heat_scale
             if abs(dE - want) > tol:
                 bad.append(("substep-balance", msg + ": stored heat of the step changed by %.9g but the flux data at the sub-step "
                             "times t_n + i*dt/substep supply %.9g" % (dE, want)))
@@ -220,6 +222,20 @@ def run(ctx):
                    not chain_only and not [v for v in viol if v[1] in ("substep-window", "substep-balance")],
                    "%d differ; first: %s" % (len(chain_only), chain_only[0][1] if chain_only else ""))
     mism = list(mism) + [(c, [d]) for c, d in chain_only]
+    # ---- one large 3-D grid (more than 10^4 unknowns), insulated: conservation to round-off must not depend on size ----
+    try:
+        big = tc.gen_case(rng, ndim=3, inner="ins", outer="ins", steady=False, const_mat=True, nsteps=2)
+        big.nr, big.nt, big.nz = 10, 28, 28
+        big.bc_nt = big.nt
+        big.substep = 1
+        bf = np.random.default_rng(rng.getrandbits(32)).uniform(300.0, 900.0, (big.nr, big.nt, big.nz))
+        big.T0field = np.round(bf * 64.0) / 64.0
+        bad, thick = check_case(big, substep=1)
+        ctx.case(("real-big-3d",), nontrivial=True, tag="real/3D/ins-ins/10800 unknowns")
+        for what, detail in bad:
+            viol.append((big, what, detail))
+    except RuntimeError as e:
+        ctx.notes.append("large 3-D insulated solve raised (C17, not C02): %r" % (e,))
     # ---- the coupled thermohydraulic driver stores single implicit steps of the same problem ----
     # (then step_balance / history_balance apply to its wall fields too; the driver's Picard loop must not advance
     # the wall by more than one dt per stored step)
